@@ -34,6 +34,22 @@ CLAIMED = {
             'CPython hash constants are the documented ones (both 64- and 32-bit configurations are '
             'analysed); only the Python-3 branch of the kernels is analysed.',
             'DESIGN.md section 2, Engine G'),
+    'C01': ('E-canonical-form',
+            'static analysis: literal evaluation of the named constants, shape classification of every raw '
+            '4-tuple with path facts, parity / bit-count abstract interpretation at every normaliser '
+            'call, typestate check of the normaliser kernels, entry rules for foreign tuples',
+            'Inductive clause: given canonical inputs, every raw tuple a kernel can hand out is canonical, '
+            'because (1) the named constants are canonical and the three special encodings are distinct, '
+            '(2) hand-built 4-tuples occur only in audited shapes under the guards they need, (3) '
+            'normalize1 - which assumes an odd-or-zero mantissa - only ever receives a provably odd or '
+            'zero mantissa (parity domain with the frozen lemmas), (4) the bit-count argument of every '
+            'normaliser call is exact for its mantissa argument (bitcount of the same expression, an '
+            'unmodified unpacked pair, or the product idiom), (5) the normaliser kernels do zero-test -> '
+            'round -> strip -> power-of-two fix-up with every mantissa shift mirrored on exponent and '
+            'bit count, (6) user tuples and pickles enter through the general normaliser / a one-to-one '
+            'field restore.  The arithmetic lemmas and the C back ends are not decided.',
+            'Trusts the parity/bit-count lemmas listed in sa/canon.py and the induction hypothesis.',
+            'DESIGN.md section 2, Engine E'),
     'C02': ('B-rounding-flow',
             'static analysis: rounding-flow abstract interpretation (precision + rounding-mode terms) of '
             'the real kernels, value checks of the mode tables, argument-threading and idiom '
